@@ -8,7 +8,7 @@ ROOT = os.path.dirname(os.path.dirname(os.path.abspath(__file__)))
 ENV = dict(os.environ, GOFLAGS="-mod=mod", GOPROXY="off", GOSUMDB="off", GOTOOLCHAIN="local", GOWORK="off")
 BASE = "0accdc9"
 claims = json.load(open(os.path.join(ROOT, "tools", "claims.json")))["claimed"]
-props = sorted(claims)
+props = os.environ.get("SWEEP_PROPS", "").split() or sorted(claims)
 
 def run_props(repo, ps):
     ev = tempfile.mkdtemp(prefix="sweepev.")
